@@ -2365,9 +2365,10 @@ def aligned_coarsen_chunks(chunks: list[int], multiple: int) -> tuple[int, ...]:
         new_chunks[chunk_modification_order[idx]] += extra
     # create excess chunk with remainder, if any remainder exists
     new_chunks = np.array([*new_chunks, *remainder])
-    # remove 0-sized chunks
+    # remove 0-sized chunks (a zero-length axis keeps a single empty chunk:
+    # a chunk tuple must not be empty)
     new_chunks = new_chunks[new_chunks > 0]
-    return tuple(new_chunks.tolist())
+    return tuple(new_chunks.tolist()) or (0,)
 
 
 @wraps(chunk.coarsen)
@@ -2397,12 +2398,15 @@ def coarsen(reduction, x, axes, trim_excess=False, **kwargs):
     coarsen_dim = lambda dim, ax: int(dim // axes.get(ax, 1))
     # only a coarsened axis can lose a (trailing, trimmed) block; the blocks of
     # the other axes are mapped one to one, zero-length ones included
+    # (an axis shorter than its coarsening factor, or of length zero, is left
+    # with its single, now empty, block)
     chunks = tuple(
         tuple(
             coarsen_dim(bd, i)
             for bd in bds
             if i not in axes or coarsen_dim(bd, i) > 0
         )
+        or (0,)
         for i, bds in enumerate(x.chunks)
     )
 
